@@ -113,6 +113,7 @@ structure Cred where
   jwt : Option JwtInfo := none
   claims : List (String × String) := []       -- flattened leaf members of credentialSubject (path, value)
   raw : String := ""                          -- JWT: the compact serialisation (identity of the signing input)
+  caseVariant : Bool := false                 -- the canonicalised document has a member that only differs by case from a member go-did reads
   cd : String := ""                           -- driver only: measured digest of the real canonical form (the theorems never read it)
   deriving Repr, DecidableEq, Inhabited
 
@@ -130,6 +131,7 @@ structure Pres where
   jwt : Option JwtInfo := none
   jwtParses : Bool := true                    -- crypto.JWTKidAlg(raw) succeeds
   raw : String := ""
+  caseVariant : Bool := false                 -- the raw JSON-LD document has a member that only differs by case from a member go-did reads
   cd : String := ""
   deriving Repr, DecidableEq, Inhabited
 
@@ -220,10 +222,10 @@ def validateDefault (c : Cred) : Outcome :=
   guard (c.types.contains vcType && c.ctx.contains vcContextV1 && c.issuer != "" && c.id.isSome
          && c.issued != zeroTime && statusSyntaxOK c) "invalid"
 
-/-- validateNutsCredentialID: `credential.ID.String()` dereferences a nil id -/
+/-- validateNutsCredentialID (a missing id is a validation error since repo commit c6cc6be; it used to be a nil dereference) -/
 def validateNutsCredentialID (E : Env) (c : Cred) : Outcome :=
   match c.id with
-  | none => .panic "validateNutsCredentialID:nil-id"
+  | none => .fail "invalid"
   | some id =>
     match E.didOfURL id with
     | none => .fail "invalid"
@@ -311,34 +313,41 @@ def resolveKey (E : Env) (d : String) : Option (String × Key) :=
 
 /-! ### linked-data proof (signature_verifier.go jsonldProof) -/
 
-def ldProofDecodes : Check ProofShape :=
-  { name := "ld:proof-decodes", run := fun s => match s with | .malformed => .fail "bad-proof" | _ => .pass }
-def ldProofPresent : Check ProofShape :=
-  { name := "ld:proof-present", run := fun s => match s with
+/-- what `jsonldProof` looks at: the decoded proof and whether the document has case-variant members -/
+structure LdDoc where
+  proof : ProofShape
+  caseVariant : Bool := false
+
+def ldNoCaseVariant : Check LdDoc :=
+  { name := "ld:no-case-variant-member", run := fun d => guard (!d.caseVariant) "ambiguous-member" }
+def ldProofDecodes : Check LdDoc :=
+  { name := "ld:proof-decodes", run := fun d => match d.proof with | .malformed => .fail "bad-proof" | _ => .pass }
+def ldProofPresent : Check LdDoc :=
+  { name := "ld:proof-present", run := fun d => match d.proof with
       | .absent => .fail "missing-proof"
       | .one p => guard (p.vm != "") "missing-proof"
       | .malformed => .pass }
-def ldVmOfIssuer (issuer : String) : Check ProofShape :=
-  { name := "ld:vm-of-issuer", run := fun s => match s with
+def ldVmOfIssuer (issuer : String) : Check LdDoc :=
+  { name := "ld:vm-of-issuer", run := fun d => match d.proof with
       | .one p => guard (beforeHash p.vm != "" && beforeHash p.vm == issuer) "vm-not-of-issuer"
       | _ => .pass }
-def ldProofValidAt (cfg : Cfg) (E : Env) (at_ : Option Time) : Check ProofShape :=
-  { name := "ld:proof-valid-at", run := fun s => match s with
+def ldProofValidAt (cfg : Cfg) (E : Env) (at_ : Option Time) : Check LdDoc :=
+  { name := "ld:proof-valid-at", run := fun d => match d.proof with
       | .one p => guard (proofValidAt cfg p (atOf E at_)) "proof-not-valid-at-time"
       | _ => .pass }
-def ldKeyResolves (E : Env) (at_ : Option Time) : Check ProofShape :=
-  { name := "ld:key-resolves", run := fun s => match s with
+def ldKeyResolves (E : Env) (at_ : Option Time) : Check LdDoc :=
+  { name := "ld:key-resolves", run := fun d => match d.proof with
       | .one p => guard (resolveKeyByID E at_ p.vm).isSome "key-unresolvable"
       | _ => .pass }
-def ldSignature (P : Crypto) (E : Env) (at_ : Option Time) (docBytes : Bytes) : Check ProofShape :=
-  { name := "ld:signature", run := fun s => match s with
+def ldSignature (P : Crypto) (E : Env) (at_ : Option Time) (docBytes : Bytes) : Check LdDoc :=
+  { name := "ld:signature", run := fun d => match d.proof with
       | .one p => match resolveKeyByID E at_ p.vm with
         | some k => guard (P.sigOK k (tbs P p docBytes) p.jws) "bad-signature"
         | none => .pass
       | _ => .pass }
 
-def ldChecks (cfg : Cfg) (P : Crypto) (E : Env) (at_ : Option Time) (issuer : String) (docBytes : Bytes) : List (Check ProofShape) :=
-  [ ldProofDecodes, ldProofPresent, ldVmOfIssuer issuer, ldProofValidAt cfg E at_, ldKeyResolves E at_, ldSignature P E at_ docBytes ]
+def ldChecks (cfg : Cfg) (P : Crypto) (E : Env) (at_ : Option Time) (issuer : String) (docBytes : Bytes) : List (Check LdDoc) :=
+  [ ldNoCaseVariant, ldProofDecodes, ldProofPresent, ldVmOfIssuer issuer, ldProofValidAt cfg E at_, ldKeyResolves E at_, ldSignature P E at_ docBytes ]
 
 /-! ### JWT (signature_verifier.go jwtSignature, crypto/jwx.go ParseJWT) -/
 
@@ -407,7 +416,7 @@ def issuerChecks (E : Env) (at_ : Option Time) : List (Check Cred) :=
 
 def signatureChecks (cfg : Cfg) (P : Crypto) (E : Env) (at_ : Option Time) (c : Cred) : List (Check Cred) :=
   match c.format with
-  | .ld => (ldChecks cfg P E at_ c.issuer (P.canon c.stripProof)).map (lift (·.proof))
+  | .ld => (ldChecks cfg P E at_ c.issuer (P.canon c.stripProof)).map (lift (fun c => { proof := c.proof, caseVariant := c.caseVariant }))
   | .jwt => (jwtChecks cfg P E at_ c.issuer c.raw).map (lift (·.jwt))
   | .other => [ chkFormat ]
 
@@ -454,7 +463,7 @@ def presentationSigner (E : Env) (vp : Pres) : Option String :=
 
 def vpSignatureChecks (cfg : Cfg) (P : Crypto) (E : Env) (at_ : Option Time) (vp : Pres) (signer : String) : List (Check Pres) :=
   match vp.format with
-  | .ld => (ldChecks cfg P E at_ signer (P.canonVP vp.stripProof)).map (lift (·.proof))
+  | .ld => (ldChecks cfg P E at_ signer (P.canonVP vp.stripProof)).map (lift (fun vp => { proof := vp.proof, caseVariant := vp.caseVariant }))
   | .jwt => (jwtChecks cfg P E at_ signer vp.raw).map (lift (·.jwt))
   | .other => [ chkFormat ]
 
